@@ -351,7 +351,11 @@ fn main() {
      14 crit lists x every subset of shared names {kid, x-c, a-b (two custom names so that a shared custom name sits at different sorted positions)[, typ, x5t#S256]}, plus protected-only and unprotected-only sets, evaluated at \
      13 entry points (3 encoders + detached variants, add_recipient after a b64-true and a b64-false first recipient, 3 decoders + \
      detached/second-signature variants, each followed by verify with an always-Ok verifier). Every (row, entry point) evaluation is \
-     distinct by construction; expected verdict = predicate written from the statement.",
+     distinct by construction; expected verdict = predicate written from the statement. Further fixed rows: each registered name shared \
+     one at a time, shared names with different values, crit spelling variants, setter-built headers with reserved names in the custom map, \
+     and a custom name shared between the two headers under every pair of JSON value kinds (null, false, 0, \"\", [], {}, \"a\", 1, true, \
+     [null], {k:null}) with same-values-different-names and single-header controls, through the JSON route (all entry points) and the \
+     setter/set_custom route (encoders), plus reserved names with null/empty values in the custom map.",
   );
   // quick: 3 shared names kid, x-c, a-b (8 subsets) ; thorough: 5 shared names (+ typ, x5t#S256; 32 subsets)
   let names = if args.thorough { 5 } else { 3 };
